@@ -67,6 +67,23 @@ func registerNatives(e *Engine) map[string]nativeFn {
 		vc.note("native model: time.Now() returns a fresh instant, monotone along the path")
 		return v
 	}
+	n["time.UnixMilli"] = func(fr *Frame, st *State, args []Val, c *ssa.CallCommon, pos string) Val {
+		vc := fr.vc
+		v := vc.havocVal(st, c.Signature().Results().At(0).Type(), "unixmilli")
+		vc.assume(st, mkEq(timeNanos(v), mkMul(scalarOf(args[0], nil), mkInt(1000000))))
+		vc.note("native model: time.UnixMilli(ms) is the instant ms*1e6 ns (no overflow of the nanosecond count)")
+		return v
+	}
+	until := func(fr *Frame, st *State, args []Val, c *ssa.CallCommon, pos string) Val {
+		vc := fr.vc
+		// reads the clock like time.Now()
+		now := vc.fresh("until$now", SInt)
+		vc.assume(st, mkAnd(mkCmp(">", now, mkInt(0)), mkCmp("<=", now, mkBig(pow2(62))), mkCmp(">=", now, vc.nowOf(st))))
+		st.heap[nowKey] = now
+		vc.note("native model: time.Until(t) = t - (fresh monotone clock reading), no saturation")
+		return &VS{vc.nameIfBig(mkSub(timeNanos(args[0]), now))}
+	}
+	n["time.Until"] = until
 	n["(time.Time).UnixNano"] = func(fr *Frame, st *State, args []Val, c *ssa.CallCommon, pos string) Val {
 		return &VS{timeNanos(args[0])}
 	}
